@@ -1,7 +1,8 @@
-"""C25 — store writes exactly the array into the requested target regions (E1, depth 1)."""
+"""C25 — store writes exactly the array into the requested target regions (E1 depth 1 + E4 histories)."""
 
 from __future__ import annotations
 
+import gc
 import itertools
 import os
 import shutil
@@ -34,12 +35,47 @@ class Target:
         return self.a[idx]
 
 
-def _regions(shape, tshape):
-    """Every offset that fits (extent is the source's) + None."""
-    per = []
-    for n, t in zip(shape, tshape):
-        per.append([slice(o, o + n) for o in range(0, t - n + 1)])
-    return [None] + list(itertools.product(*per))
+def _axis_regions(n, t, tier):
+    """Region slices along one axis selecting exactly n of the t target
+    positions: contiguous at every offset (quick: first / middle / last) and
+    strided (step 2 from 0 and from 1, step 3 from 0) where they fit."""
+    offs = list(range(0, t - n + 1))
+    if tier == "quick":
+        offs = sorted({offs[0], offs[len(offs) // 2], offs[-1]})
+    out = [(o, o + n, 1) for o in offs]
+    for o, st in ((0, 2), (1, 2), (0, 3)):
+        if o + (n - 1) * st < t:
+            out.append((o, o + (n - 1) * st + 1, st))
+    return out
+
+
+def _regions(shape, tshape, tier):
+    per = [_axis_regions(n, t, tier) for n, t in zip(shape, tshape)]
+    return [None] + [list(map(list, p)) for p in itertools.product(*per)]
+
+
+def _mk_target(kind, tshape):
+    return Target(tshape) if kind == "rec" else np.full(tshape, SENT)
+
+
+def _sl(region):
+    return None if region is None else tuple(slice(*r) for r in region)
+
+
+def _check_target(t, src, reg, tshape, desc, what):
+    arr = t.a if isinstance(t, Target) else t
+    exp = np.full(tshape, SENT)
+    exp[reg if reg is not None else Ellipsis] = src
+    if not np.array_equal(arr, exp):
+        wrong_in = not np.array_equal(arr[reg if reg is not None else Ellipsis], src)
+        return {"kind": "wrong-target", "signature": f"wrong-target:{'inside-region' if wrong_in else 'outside-region'}", "detail": desc + f"\n {what} is {arr.tolist()} expected {exp.tolist()}"}
+    if isinstance(t, Target):
+        for w in t.writes:
+            tup = w if isinstance(w, tuple) else (w,)
+            for ax, i in enumerate(tup):
+                if isinstance(i, slice) and any(v is not None and not (0 <= v <= tshape[ax]) for v in (i.start, i.stop)):
+                    return {"kind": "write-out-of-bounds", "signature": "write-out-of-bounds", "detail": desc + f"\n write request {w} outside the target"}
+    return None
 
 
 def run_case(case, out=None):
@@ -48,26 +84,31 @@ def run_case(case, out=None):
     shape = tuple(case["shape"])
     a = np.arange(int(np.prod(shape))).reshape(shape) + 10.0
     x = da.from_array(a, chunks=tuple(tuple(c) for c in case["chunks"]))
-    region = case["region"]
-    reg = None if region is None else tuple(slice(*r) for r in region)
+    reg = _sl(case["region"])
     tshape = tuple(case["tshape"]) if reg is not None else shape
     kind = case["target"]
-    tgt = Target(tshape) if kind == "rec" else np.full(tshape, SENT)
+    tgt = _mk_target(kind, tshape)
     lock = {"true": True, "false": False, "lock": threading.Lock()}[case["lock"]]
-    desc = f"store(from_array{shape} chunks={case['chunks']}, target{tshape}({kind}), regions={reg}, lock={case['lock']}, compute={case['compute']}, return_stored={case['return_stored']}, pairs={case['pairs']})"
+    pairs = case["pairs"]
+    desc = f"store(from_array{shape} chunks={case['chunks']}, target{tshape}({kind}), regions={reg}, lock={case['lock']}, compute={case['compute']}, return_stored={case['return_stored']}, load_stored={case.get('load_stored')}, pairs={pairs}, second region={case.get('region2')})"
     sources, targets, regions = x, tgt, reg
-    tgt2 = None
-    if case["pairs"] == 2:
-        b = a * 2
-        y = da.from_array(b, chunks=-1)
-        tgt2 = Target(tshape) if kind == "rec" else np.full(tshape, SENT)
+    srcs, tgts, regs = [a], [tgt], [reg]
+    if pairs != "1":
+        if pairs == "2diff":
+            b = a * 2
+            y = da.from_array(b, chunks=-1)
+            reg2 = _sl(case.get("region2")) if reg is not None else None
+        else:  # the same source into two distinct targets with equal contents
+            b, y, reg2 = a, x, reg
+        tgt2 = _mk_target(kind, tshape)
         sources, targets = [x, y], [tgt, tgt2]
-        regions = None if reg is None else [reg, reg]
+        regions = None if reg is None else [reg, reg2]
+        srcs, tgts, regs = [a, b], [tgt, tgt2], [reg, reg2]
+    returned = None
     try:
         res = da.store(sources, targets, lock=lock, regions=regions, compute=case["compute"], return_stored=case["return_stored"], **({"load_stored": case["load_stored"]} if case.get("load_stored") is not None else {}))
         if not case["compute"] and not case["return_stored"]:
             dask.compute(res, scheduler="sync")
-        returned = None
         if case["return_stored"]:
             rs = list(res) if isinstance(res, (tuple, list)) else [res]
             # the stored arrays are lazy when compute=False: each one stores its
@@ -81,34 +122,70 @@ def run_case(case, out=None):
             # per-chunk targets ("directly computing this result is not what
             # you want"): only the targets are judged then
             if not (case.get("load_stored") is False and not case["compute"]):
-                returned = vals[0]
+                returned = vals
     except NotImplementedError:
         return "refused", None
     except Exception as e:  # noqa: BLE001
         return None, {"kind": "raise", "signature": f"raise:{E.exc_sig(e)}", "detail": desc + f" raised {type(e).__name__}: {str(e)[:200]}"}
 
-    def check(t, src, what):
-        arr = t.a if isinstance(t, Target) else t
-        exp = np.full(tshape, SENT)
-        exp[reg if reg is not None else Ellipsis] = src
-        if not np.array_equal(arr, exp):
-            wrong_in = not np.array_equal(arr[reg if reg is not None else Ellipsis], src)
-            return {"kind": "wrong-target", "signature": f"wrong-target:{'inside-region' if wrong_in else 'outside-region'}", "detail": desc + f"\n {what} is {arr.tolist()} expected {exp.tolist()}"}
-        if isinstance(t, Target):
-            for w in t.writes:
-                tup = w if isinstance(w, tuple) else (w,)
-                for ax, i in enumerate(tup):
-                    if isinstance(i, slice) and any(v is not None and not (0 <= v <= tshape[ax]) for v in (i.start, i.stop)):
-                        return {"kind": "write-out-of-bounds", "signature": "write-out-of-bounds", "detail": desc + f"\n write request {w} outside the target"}
-        return None
-
-    f = check(tgt, a, "target") or (check(tgt2, a * 2, "second target") if tgt2 is not None else None)
-    if f:
-        return None, f
+    for i, (t, s, r) in enumerate(zip(tgts, srcs, regs)):
+        f = _check_target(t, s, r, tshape, desc, "target" if i == 0 else "second target")
+        if f:
+            if i:
+                f["signature"] += ":second-target"
+            return None, f
     if returned is not None:
-        bad = E.compare(returned, a, exact=True, dtype=False)
-        if bad:
-            return None, {"kind": "returned-" + bad[0], "signature": f"returned-{bad[0]}:compute={case['compute']},load_stored={case.get('load_stored')}", "detail": desc + "\n returned array: " + bad[1]}
+        if len(returned) != len(srcs):
+            return None, {"kind": "returned-count", "signature": "returned-count", "detail": desc + f"\n {len(returned)} arrays returned for {len(srcs)} pairs"}
+        for i, (v, s) in enumerate(zip(returned, srcs)):
+            bad = E.compare(v, s, exact=True, dtype=False)
+            if bad:
+                return None, {"kind": "returned-" + bad[0], "signature": f"returned-{bad[0]}:compute={case['compute']},load_stored={case.get('load_stored')}" + (":second" if i else ""), "detail": desc + f"\n returned array #{i}: " + bad[1]}
+    return "ok", None
+
+
+# ---- histories of stores in one process ------------------------------------
+
+MODES = ("now", "lazy", "rs", "lazy_rs")
+
+
+def run_hist_case(case):
+    """Two stores of the SAME source into two distinct targets with equal
+    contents, in every combination of {computed at once, lazy and kept, computed
+    with return_stored and kept, lazy with return_stored}; the lazy ones are
+    computed afterwards in either order.  Both targets must end up written."""
+    import dask_array as da
+
+    shape = tuple(case["shape"])
+    a = np.arange(int(np.prod(shape))).reshape(shape) + 10.0
+    x = da.from_array(a, chunks=tuple(tuple(c) for c in case["chunks"]))
+    reg = _sl(case["region"])
+    tshape = tuple(case["tshape"]) if reg is not None else shape
+    tg = [_mk_target(case["target"], tshape) for _ in range(2)]
+    desc = f"history on from_array{shape} chunks={case['chunks']} regions={reg}: store(x, t1, {case['modes'][0]}); store(x, t2, {case['modes'][1]}); lazy results computed in order {case['order']} ({case['target']} targets with equal contents)"
+    kept = []
+    try:
+        for t, m in zip(tg, case["modes"]):
+            r = da.store(x, t, regions=reg, lock=False, compute=m in ("now", "rs"), return_stored=m in ("rs", "lazy_rs"))
+            kept.append(r)
+        for i in case["order"]:
+            if case["modes"][i].startswith("lazy"):
+                dask.compute(kept[i], scheduler="sync")
+        for i, m in enumerate(case["modes"]):
+            if m == "rs":
+                v = kept[i].compute(scheduler="sync")
+                bad = E.compare(v, a, exact=True, dtype=False)
+                if bad:
+                    return None, {"kind": "hist-returned", "signature": f"hist-returned-{bad[0]}:{m}", "detail": desc + f"\n stored array #{i}: {bad[1]}"}
+    except NotImplementedError:
+        return "refused", None
+    except Exception as e:  # noqa: BLE001
+        return None, {"kind": "hist-raise", "signature": f"hist-raise:{E.exc_sig(e)}", "detail": desc + f" raised {type(e).__name__}: {str(e)[:200]}"}
+    for i, t in enumerate(tg):
+        f = _check_target(t, a, reg, tshape, desc, f"target t{i + 1}")
+        if f:
+            f["signature"] = "hist-" + f["signature"] + f":t{i + 1}"
+            return None, f
     return "ok", None
 
 
@@ -139,9 +216,55 @@ def run_npy_case(case):
     return "ok", None
 
 
+def run_npy_hist_case(case):
+    """Round trip, then ANOTHER array written to the same directory and read
+    back, with the first reader kept alive / computed / dropped in between."""
+    import dask_array as da
+
+    shape = tuple(case["shape"])
+    ax = case["axis"]
+    a = np.arange(int(np.prod(shape))).reshape(shape) + 10.0
+    x = da.from_array(a, chunks=tuple(tuple(c) for c in case["chunks"]))
+    if case["second"] == "values":
+        a2, ch2 = a * 3 + 1, x.chunks
+    elif case["second"] == "chunks":
+        a2 = a * 3 + 1
+        ch2 = tuple((1,) * shape[i] if i == ax else c for i, c in enumerate(x.chunks))
+    else:  # a longer array along the stack axis
+        a2 = np.concatenate([a, a + 100], axis=ax)
+        ch2 = tuple(c + c if i == ax else c for i, c in enumerate(x.chunks))
+    x2 = da.from_array(a2, chunks=ch2)
+    d = os.path.join(VERIF, ".scratch", f"c25h-{os.getpid()}")
+    shutil.rmtree(d, ignore_errors=True)
+    os.makedirs(d)
+    desc = f"to_npy_stack(x{shape} chunks {case['chunks']}, axis={ax}); y = from_npy_stack [{case['first']}]; to_npy_stack(x2: {case['second']} differ) into the same directory; from_npy_stack"
+    try:
+        da.to_npy_stack(d, x, axis=ax)
+        y = da.from_npy_stack(d)
+        if case["first"] == "computed":
+            y.compute(scheduler="sync")
+        elif case["first"] == "dropped":
+            del y
+            gc.collect()
+        da.to_npy_stack(d, x2, axis=ax)
+        y2 = da.from_npy_stack(d)
+        if y2.shape != a2.shape or y2.chunks[ax] != x2.chunks[ax]:
+            return None, {"kind": "npy-hist-layout", "signature": f"npy-rewrite-layout:{case['first']}:{case['second']}", "detail": desc + f" advertises shape {y2.shape} chunks {y2.chunks}; written: shape {a2.shape} chunks along axis {x2.chunks[ax]}"}
+        bad = E.compare(y2.compute(scheduler="sync"), a2, exact=True, dtype=True)
+        if bad:
+            return None, {"kind": "npy-hist-" + bad[0], "signature": f"npy-rewrite-{bad[0]}:{case['first']}:{case['second']}", "detail": desc + ": " + bad[1]}
+    except NotImplementedError:
+        return "refused", None
+    except Exception as e:  # noqa: BLE001
+        return None, {"kind": "npy-hist-raise", "signature": f"npy-rewrite-raise:{case['first']}:{case['second']}:{E.exc_sig(e)}", "detail": desc + f" raised {type(e).__name__}: {str(e)[:200]}"}
+    finally:
+        shutil.rmtree(d, ignore_errors=True)
+    return "ok", None
+
+
 def plan(tier, seed):
     shards = []
-    shapes = [((6,), (9,)), ((3, 4), (5, 6))] if tier != "quick" else [((6,), (8,)), ((3, 4), (4, 5))]
+    shapes = [((6,), (12,)), ((3, 4), (6, 8))] if tier != "quick" else [((6,), (12,)), ((3, 4), (5, 7))]
     for shape, tshape in shapes:
         chs = list(itertools.product(*[compositions(n) for n in shape]))
         if tier == "quick":
@@ -152,8 +275,8 @@ def plan(tier, seed):
         "shards": shards,
         "coverage": {
             "exhaustive": True,
-            "bounds": {"shapes": [list(s) for s, _ in shapes], "target_shapes": [list(t) for _, t in shapes]},
-            "rule": "every chunking of the source x every region offset that fits in a larger sentinel-filled target (and regions=None) x lock in {True, False, a Lock} x compute in {True, False} x return_stored / load_stored x 1 or 2 source/target pairs x {ndarray target, recording target}: target[region] equals the source everywhere, the sentinel is untouched elsewhere, write requests stay inside the target, returned/loaded arrays equal the source; plus the npy-stack round trip for every chunking and axis. Non-trivial = multi-block source with an offset region",
+            "bounds": {"shapes": [list(s) for s, _ in shapes], "target_shapes": [list(t) for _, t in shapes], "history_length": 2},
+            "rule": "every chunking of the source x every region (contiguous at every offset that fits in a larger sentinel-filled target, strided with step 2 from 0 / from 1 and step 3, per axis; and regions=None) x lock in {True, False, a Lock} x compute in {True, False} x return_stored / load_stored x {one pair, two different sources with two different regions, the same source into two distinct equal-content targets} x {ndarray target, recording target}: every target[region] equals its source, the sentinel is untouched elsewhere, write requests stay inside the target, every returned/loaded array equals its source; histories of two stores of one source into two equal-content targets under every pair of modes {now, lazy, return_stored, lazy+return_stored} and either compute order; the npy-stack round trip for every chunking and axis, and its rewrite histories (first reader alive / computed / dropped x second array differing in values / chunks / length). Non-trivial = multi-block source with an offset region",
         },
         "assumptions": ["scratch directory under /verif/.scratch, removed after each case"],
     }
@@ -162,50 +285,75 @@ def plan(tier, seed):
 def run_shard(shard):
     out = ShardOut()
     shape, tshape = tuple(shard["shape"]), tuple(shard["tshape"])
-    regs = _regions(shape, tshape)
-    for reg in regs:
-        region = None if reg is None else [[s.start, s.stop] for s in reg]
+    tier = shard.get("tier", "quick")
+    regs = _regions(shape, tshape, tier)
+
+    def tally(case, st, f, nontrivial):
+        if st == "refused":
+            out.count("refused")
+            return
+        out.count("accepted")
+        if nontrivial:
+            out.count("nontrivial")
+        if f:
+            f["case"] = case
+            out.fail(f)
+
+    multi = sum(len(c) for c in shard["chunks"]) > len(shape)
+    for ri, region in enumerate(regs):
+        region2 = None if region is None else regs[1 + (ri % (len(regs) - 1))]
         for lock in ("true", "false", "lock"):
             for compute, rs, ls in ((True, False, None), (False, False, None), (True, True, None), (False, True, None), (True, True, True), (False, True, False)):
-                for pairs in (1, 2):
+                for pairs in ("1", "2diff", "2same"):
                     for target in ("np", "rec"):
-                        if target == "np" and lock == "lock" and pairs == 2:
+                        if lock == "lock" and (pairs != "1" and target == "np" or tier == "quick" and region is not None and ri % 2):
                             continue
-                        case = {"shape": list(shape), "tshape": list(tshape), "chunks": shard["chunks"], "region": region, "lock": lock, "compute": compute, "return_stored": rs, "load_stored": ls, "pairs": pairs, "target": target}
+                        case = {"what": "store", "shape": list(shape), "tshape": list(tshape), "chunks": shard["chunks"], "region": region, "region2": region2, "lock": lock, "compute": compute, "return_stored": rs, "load_stored": ls, "pairs": pairs, "target": target}
                         out.count("evaluations")
                         out.count("transitions")
                         out.sadd("state_keys", hash(repr(case)))
                         st, f = run_case(case, out)
-                        if st == "refused":
-                            out.count("refused")
-                            continue
-                        out.count("accepted")
-                        if region is not None and any(r[0] for r in region) and sum(len(c) for c in shard["chunks"]) > len(shape):
-                            out.count("nontrivial")
-                        if f:
-                            f["case"] = dict(case, what="store")
-                            out.fail(f)
-                        elif not out.samples and region is not None:
+                        tally(case, st, f, region is not None and any(r[0] or r[2] > 1 for r in region) and multi)
+                        if not f and not out.samples and region is not None:
                             out.sample(case)
+    # histories
+    hregs = [None, regs[len(regs) // 2]]
+    for region in hregs:
+        for modes in itertools.product(MODES, repeat=2):
+            for order in ([0, 1], [1, 0]):
+                if order == [1, 0] and not all(m.startswith("lazy") for m in modes):
+                    continue
+                for target in ("np", "rec"):
+                    case = {"what": "hist", "shape": list(shape), "tshape": list(tshape), "chunks": shard["chunks"], "region": region, "modes": list(modes), "order": order, "target": target}
+                    out.count("evaluations")
+                    out.count("transitions", 2)
+                    out.count("histories")
+                    out.sadd("state_keys", hash(repr(case)))
+                    st, f = run_hist_case(case)
+                    tally(case, st, f, multi)
     for axis in range(len(shape)):
         case = {"what": "npy", "shape": list(shape), "chunks": shard["chunks"], "axis": axis}
         out.count("evaluations")
         out.count("transitions")
         st, f = run_npy_case(case)
-        if st == "refused":
-            out.count("refused")
-            continue
-        out.count("accepted")
-        out.count("npy_roundtrips")
-        if f:
-            f["case"] = case
-            out.fail(f)
+        tally(case, st, f, False)
+        if st != "refused":
+            out.count("npy_roundtrips")
+        for first in ("alive", "computed", "dropped"):
+            for second in ("values", "chunks", "length"):
+                case = {"what": "npyhist", "shape": list(shape), "chunks": shard["chunks"], "axis": axis, "first": first, "second": second}
+                out.count("evaluations")
+                out.count("transitions", 2)
+                out.count("histories")
+                out.sadd("state_keys", hash(repr(case)))
+                st, f = run_npy_hist_case(case)
+                tally(case, st, f, multi)
     return out.result()
 
 
 def coverage(agg, plan):
     c = agg.counters
-    return {"states": len(agg.sets.get("state_keys", ())), "transitions": c["transitions"], "traces_validated_against_impl": c["accepted"], "evaluations": c["evaluations"], "distinct_nontrivial": c["nontrivial"], "npy_roundtrips": c["npy_roundtrips"]}
+    return {"states": len(agg.sets.get("state_keys", ())), "transitions": c["transitions"], "traces_validated_against_impl": c["accepted"], "evaluations": c["evaluations"], "distinct_nontrivial": c["nontrivial"], "npy_roundtrips": c["npy_roundtrips"], "histories": c["histories"]}
 
 
 def vacuity(agg, plan):
@@ -215,12 +363,12 @@ def vacuity(agg, plan):
         v.append(f"only {c['accepted']} accepted store cases")
     if c["npy_roundtrips"] < 10:
         v.append("too few npy-stack round trips")
+    if c["histories"] < 200:
+        v.append("too few store histories")
     return v
 
 
 def replay(case):
-    if case.get("what") == "npy":
-        st, f = run_npy_case(case)
-    else:
-        st, f = run_case(case)
+    fn = {"npy": run_npy_case, "hist": run_hist_case, "npyhist": run_npy_hist_case}.get(case.get("what"), run_case)
+    st, f = fn(case)
     return f
